@@ -59,7 +59,7 @@ type Arm struct {
 type AttrKind uint8
 
 const (
-	AConst    AttrKind = iota // Name Raw          Raw = `="v"` | `='v'` | `=v`
+	AConst    AttrKind = iota // Name=Q Val Q      Q = `"` | `'` | `` (unquoted); Val is the raw (escaped) text
 	ABool                     // Name
 	ABoolExpr                 // Name?={PadL S PadR}
 	AExpr                     // Name={PadL S PadR}
@@ -71,7 +71,7 @@ type Attr struct {
 	K                AttrKind
 	Before           string // whitespace in front of the attribute
 	Name             string
-	Raw              string
+	Q, Val           string
 	S                string
 	PadL, PadR       string
 	Then, Else       []*Attr
@@ -148,7 +148,7 @@ func printAttrs(b *strings.Builder, as []*Attr) {
 		b.WriteString(a.Before)
 		switch a.K {
 		case AConst:
-			b.WriteString(a.Name + a.Raw)
+			b.WriteString(a.Name + "=" + a.Q + a.Val + a.Q)
 		case ABool:
 			b.WriteString(a.Name)
 		case ABoolExpr:
